@@ -548,9 +548,14 @@ func runR37(c *Ctx) {
 			if !ok {
 				return
 			}
-			al, ok := ia.X.(*ssa.Alloc)
-			if !ok || !isCompactAppend(al) {
-				return
+			if al, ok := ia.X.(*ssa.Alloc); !ok || !isCompactAppend(al) {
+				// or a store into a preallocated result at the group's own number
+				if _, isMk := singleDef(rootSlice(ia.X)).(*ssa.MakeSlice); !isMk {
+					return
+				}
+				if _, isAdd := stripConv(ia.Index).(*ssa.BinOp); !isAdd {
+					return
+				}
 			}
 			// only the result slice (element type = aggregation result), inside the loop over indices
 			var li *loopInfo
